@@ -6,6 +6,7 @@ import (
 	"encoding/hex"
 	"fmt"
 	"math/big"
+	"sort"
 	"strings"
 
 	"verifsim/kit"
@@ -15,11 +16,16 @@ import (
 	"github.com/youchainhq/go-youchain/consensus/ucon"
 	"github.com/youchainhq/go-youchain/core"
 	"github.com/youchainhq/go-youchain/core/types"
+	"github.com/youchainhq/go-youchain/local"
 )
 
 // blockRef is what the builder produced for one height: the reference every importer must
 // reproduce.
 type blockRef struct {
+	detained  *big.Int // Σ value detained by this block's applied create/deposit/delegation-add transactions
+	refundCap *big.Int // Σ gasUsed*price/2 over applied calls that earn an EVM gas refund (upper bound of what refunds are worth)
+
+	tainted  string // non-empty: executing this block sets a state database error (see sim.taintCheck)
 	blk      *types.Block
 	view     *headView // raw enumeration of the builder's own post-seal state
 	rcDigest string    // digest of the builder's stored receipts
@@ -96,8 +102,19 @@ func (s *sim) runHistory(h hooks) {
 	}
 	r.Logf("actors%s starve=%d", sb.String(), s.g.starve)
 	var hist []voteRec
+	tainted := false
 	for n := 1; n <= h.blocks && !s.dead; n++ {
 		r.Logf("-- block %d", n)
+		if s.onlineAny() == 0 {
+			// nobody is online in the head state any more (the look-back set would keep the
+			// chain going for StakeLookBack blocks): a generator dead end, not a property matter
+			r.Logf("no online validator left in the head state: stop")
+			r.Probe("no-online-validator-left")
+			break
+		}
+		if uint64(n)%s.sc.F == 0 {
+			s.g.riskyPending = 0
+		}
 		if n == 1 {
 			s.warmUp()
 		}
@@ -149,11 +166,17 @@ func (s *sim) runHistory(h hooks) {
 		if ref == nil {
 			break
 		}
+		if ref.tainted != "" {
+			// from here on the chain's hashes depend on map iteration order
+			r.Probe("stopped-at-order-dependent-block")
+			tainted = true
+			break
+		}
 		if h.onBuilt != nil {
 			h.onBuilt(n, ref)
 		}
 	}
-	if h.atEnd != nil && !s.dead {
+	if h.atEnd != nil && !s.dead && !tainted {
 		h.atEnd()
 	}
 	r.Nontrivial()
@@ -169,7 +192,20 @@ func (s *sim) observeBuilt(n int, blk *types.Block) *blockRef {
 	if cd != nil {
 		idx = cd.RoundIndex
 	}
-	r.Logf("built %d idx=%d proposer=%s txs=%d %s", n, idx, s.act.name(hdr.Coinbase), len(blk.Transactions()), commitments(hdr))
+	tainted := s.taintCheck(n, blk)
+	if s.dead {
+		return nil
+	}
+	if tainted != "" {
+		// what this block's staking root (hence its hash and everything after it) is depends
+		// on map iteration order: nothing order-dependent may enter the trace
+		// (the builder's own stored head state may even be unreadable: the root it sealed and
+		// the root it committed come from two walks over the same map)
+		r.Logf("built %d idx=%d proposer=%s txs=%d gas=%d rewards=%v (commitments withheld: %s)", n, idx, s.act.name(hdr.Coinbase), len(blk.Transactions()), hdr.GasUsed, hdr.GasRewards, tainted)
+		return &blockRef{blk: blk, tainted: tainted}
+	} else {
+		r.Logf("built %d idx=%d proposer=%s txs=%d %s", n, idx, s.act.name(hdr.Coinbase), len(blk.Transactions()), commitments(hdr))
+	}
 	if s.act.valByAddr(hdr.Coinbase) != nil {
 		r.FP("proposer", s.act.name(hdr.Coinbase))
 	}
@@ -180,6 +216,7 @@ func (s *sim) observeBuilt(n int, blk *types.Block) *blockRef {
 	}
 	F := s.sc.F
 	periodEnd := (uint64(n)+1)%F == 0
+	detained, refundCap := new(big.Int), new(big.Int)
 	for i, tx := range blk.Transactions() {
 		rc := rcs[i]
 		it := s.intents[tx.Hash()]
@@ -195,7 +232,13 @@ func (s *sim) observeBuilt(n int, blk *types.Block) *blockRef {
 		} else {
 			r.Count("tx."+kind+".failed", 1)
 		}
+		if ok && it != nil && it.refund {
+			fee := new(big.Int).Mul(new(big.Int).SetUint64(rc.GasUsed), tx.GasPrice())
+			refundCap.Add(refundCap, fee.Rsh(fee, 1))
+			r.Probe("gas-refund-earning-call-applied")
+		}
 		if ok && it.detains() {
+			detained.Add(detained, it.value)
 			s.escrow.Add(s.escrow, it.value)
 			r.Logf("    escrow += %v (%s %s)", it.value, it.kind, s.act.name(it.val))
 		}
@@ -234,8 +277,10 @@ func (s *sim) observeBuilt(n int, blk *types.Block) *blockRef {
 		return nil
 	}
 	lines, dg := receiptsText(rcs)
-	r.Logf("  state=%s receipts=%s accounts=%d validators=%d", view.digest, dg, len(view.accounts), len(view.rawVals))
-	return &blockRef{blk: blk, view: view, rcDigest: dg, rcText: lines}
+	if tainted == "" {
+		r.Logf("  state=%s receipts=%s accounts=%d validators=%d", view.digest, dg, len(view.accounts), len(view.rawVals))
+	}
+	return &blockRef{blk: blk, view: view, rcDigest: dg, rcText: lines, tainted: tainted, detained: detained, refundCap: refundCap}
 }
 
 func mustSender(tx *types.Transaction) common.Address {
@@ -255,3 +300,93 @@ func historyLen(r *kit.Run, lo, hi int) int {
 }
 
 var _ = core.DefaultTxPoolConfig
+
+// reexec executes blk once more on a scratch state opened on its parent in the builder's
+// database, the way insertChain does (core/blockchain.go:377-395: StakingRootForNewBlock,
+// state.New, Processor.Process), computes the roots and returns them with the state's database
+// error. Nothing is written. (Slash data is not replayed here — the chain's current header is
+// the block itself, staking/slash.go:66 — so the roots are compared among re-executions only.)
+func (s *sim) reexec(blk *types.Block) (roots string, dbErr error, err error) {
+	chain := s.b.Chain
+	parent := chain.GetBlock(blk.ParentHash(), blk.NumberU64()-1)
+	if parent == nil {
+		return "", nil, fmt.Errorf("parent of block %d unknown", blk.NumberU64())
+	}
+	yp, err := chain.VersionForRound(blk.NumberU64())
+	if err != nil {
+		return "", nil, err
+	}
+	st, err := chain.StateAt(parent.Root(), parent.ValRoot(), core.StakingRootForNewBlock(yp.StakingTrieFrequency, parent.Header()))
+	if err != nil {
+		return "", nil, err
+	}
+	ok := s.do(func() {
+		_, err = chain.Processor().Process(yp, blk, st, *chain.GetVMConfig(), local.FakeRecorder())
+	})
+	if !ok {
+		return "", nil, fmt.Errorf("died in logging.Crit")
+	}
+	if err != nil {
+		return "", nil, err
+	}
+	r1, r2, r3 := st.IntermediateRoot(true)
+	return fmt.Sprintf("root=%x val=%x staking=%x", r1[:4], r2[:4], r3[:4]), st.Error(), nil
+}
+
+// taintCheck is the deterministic detector for block executions whose result depends on map
+// iteration order because a state database error occurs half-way: StateDB.updateStakingTrie
+// (core/state/statedb_staking.go:184) walks the dirty staking records in MAP order and returns
+// at the first record it cannot encode, so which records reach the staking trie — and thus
+// header.StakingRoot — depends on the order. The error is sticky (StateDB.Error) and is set
+// whatever the order, which makes the condition observable deterministically; how often
+// executions actually disagree is then measured by re-executing the block several times.
+func (s *sim) taintCheck(n int, blk *types.Block) string {
+	r := s.r
+	_, dbErr, err := s.reexec(blk)
+	if s.dead {
+		return ""
+	}
+	if err != nil {
+		r.Report("built-block-not-executable", "block %d, just built by the block-building path, cannot be executed again on its parent state: %v", n, err)
+		return ""
+	}
+	if dbErr == nil {
+		return ""
+	}
+	freq := map[string]int{}
+	const reps = 16
+	for i := 0; i < reps && !s.dead; i++ {
+		roots, _, e := s.reexec(blk)
+		if e != nil {
+			roots = "error: " + e.Error()
+		}
+		freq[roots]++
+	}
+	var parts []string
+	for k, c := range freq {
+		parts = append(parts, fmt.Sprintf("%dx %s", c, k))
+	}
+	sort.Strings(parts)
+	if !s.reportTaint {
+		// C07/C08 runs: builder/validator agreement is C06's subject; the run is cut here
+		// because everything after this block depends on map iteration order
+		r.Logf("block %d: execution sets the state database error %q: order-dependent from here on (C06)", n, dbErr.Error())
+		r.Probe("block-execution-hits-db-error")
+		return "state database error: " + dbErr.Error()
+	}
+	r.Report("block-execution-hits-db-error", "executing block %d sets the state database error %q (every execution does); which staking records reach the staking trie — and so the block's StakingRoot — then depends on map iteration order (core/state/statedb_staking.go:184-199)", n, dbErr.Error())
+	// the measured disagreement is itself order-dependent: it goes into the violation's detail
+	// but not into the trace (whose digest must be a function of the choices alone)
+	s.amend("block-execution-hits-db-error", fmt.Sprintf(" | measured: %d executions of the block on fresh state objects over the same parent state gave %d different results [%s]; the builder sealed staking=%x",
+		reps, len(freq), strings.Join(parts, " ; "), blk.Header().StakingRoot[:4]))
+	return "state database error: " + dbErr.Error()
+}
+
+// amend appends to the detail of an already reported violation without touching the trace.
+func (s *sim) amend(class, more string) {
+	for i := range s.r.Violations {
+		if s.r.Violations[i].Class == class && !strings.Contains(s.r.Violations[i].Detail, " | measured: ") {
+			s.r.Violations[i].Detail += more
+		}
+	}
+}
